@@ -100,10 +100,13 @@ double gcirc(double ra1, double dec1,
 
     cosdis = sindec1*sindec2 + cosdec1*cosdec2*cosradiff;
 
-    if (cosdis < -1.0) cosdis=-1.0;
-    if (cosdis >  1.0) cosdis= 1.0;
+    // acos(cosdis) cannot resolve separations below ~1e-6 degrees (or that
+    // close to 180); take the angle from both the sine and the cosine
+    double sinradiff = sin(radiff);
+    double s1 = cosdec2*sinradiff;
+    double s2 = cosdec1*sindec2 - sindec1*cosdec2*cosradiff;
 
-    dis = acos(cosdis);
+    dis = atan2(sqrt(s1*s1 + s2*s2), cosdis);
     if (degrees) {
         dis *= R2D;
     }
